@@ -17,7 +17,7 @@ BUDGET = {"quick": 2500, "thorough": 50000}
 MIN_NONTRIVIAL = {"quick": 200, "thorough": 2000}
 RULE = (
     "histories: 1-5 kernel bodies (1-3 integer add/sub/mul or float addf/subf/mulf operations over 2-3 data inputs with seeded operand "
-    "routing, every input and intermediate used) are converted by convert_generic_body_to_phs and merged one after the other into one abstract "
+    "routing, every input used; in a tenth of the histories kernels may contain operations whose result nobody reads) are converted by convert_generic_body_to_phs and merged one after the other into one abstract "
     "PE by append_to_abstract_graph; after every merge every kernel merged so far is decoded again (decode_abstract_graph) and the abstract PE "
     "is evaluated under the decoded switch values by an independent PE interpreter on an exhaustive small grid plus seeded data points and "
     "compared with direct evaluation of the kernel; the number of decoded values must equal get_true_switches(). A history machine without "
@@ -274,7 +274,7 @@ META = {
     "stub": ["PE interpreter and kernel evaluator (simsnax/props/c20.py)", "xDSL 0.70.0 with the irdl_options shim"],
     "assumptions": [
         "finite, non-NaN data inputs; float kernels evaluated in f32",
-        "a kernel counts as merged only if append_to_abstract_graph returned normally",
+        "a kernel counts as merged only if append_to_abstract_graph returned normally; a merge refused with AssertionError / NotImplementedError / ValueError / KeyError ends the history (none occurs on the unchanged tree), any other exception out of the merge code is reported (merge-crash)",
         "history machine: no schedule, no fault (none exist for this object): distinct_interleavings = 1",
     ],
     "interleavings": "single-threaded history: 1",
